@@ -17,7 +17,7 @@ MANIFEST = {
     'technique': 'runtime monitoring: offline checker over recorded output (independent DDL reader) vs model-derived expectation',
 }
 LEVEL = 'exploration'
-BUDGET = {'quick': 40, 'thorough': 400}
+BUDGET = {'quick': 60, 'thorough': 400}
 RULE = ('databases from the reference product (4 kinds x 2 forms x update/delete action pairs [banded in quick, all 36 in '
         'thorough] x {unnamed, bare name, quoted name} x arity 1..3, 6 references per document over 3 tables with random '
         'schemas/aliases) and seeded random whole documents with 0-12 mixed references; parsed origin and API-built origin '
